@@ -104,6 +104,8 @@ REQUIRE = {
     "flow_overwrites": 10,
     "bitwise_snapshots_flow": 500,
     "bitwise_snapshots_body": 500,
+    "reset_mode_calls_2nd_or_later_with_content_outside_footprint": 20,
+    "evaluations_3d_with_nonzero_integral_and_stiffness": 50,
     "histories_other_dx_same_process": 16,
     "histories_own_dx_after_other_dx": 8,
     "ctor_with_defaults_left_out": 20,
@@ -478,6 +480,7 @@ def run_history(rec, rng, sh, hidx, length, force=None):
     ops = []
     n_real = 0
     pattern = set()
+    ncalls = [0] * nb
 
     def fail(mech, msg):
         rec.violation(mech, f"{msg} after op #{len(ops) - 1} {ops[-1] if ops else None}; {meta} reset={flags}",
@@ -597,6 +600,8 @@ def run_history(rec, rng, sh, hidx, length, force=None):
                     fail("evaluation-uses-stale-markers", f"forcing grid of body {ib} differs from a fresh grid on the current body state (ratio {rg:.3g})")
                     break
                 w, sup, gdr = m.evaluate(X, V, u.astype(np.float64), shape, dx, shift)
+                if d == 3 and m.k != 0 and np.any(m.I != 0):
+                    rec.count("evaluations_3d_with_nonzero_integral_and_stiffness")  # s_max**(d-1) vs s_max*(d-1) differ only here
                 if m.evaluated_since_step:
                     rec.count("repeated_evaluations_without_step")
                 if m.stepped_since_eval:
@@ -610,11 +615,16 @@ def run_history(rec, rng, sh, hidx, length, force=None):
                     absum = spread(w, np.abs(m.F), dx)  # sum over markers of |contribution| per cell
                     cnt = spread(sup, np.ones_like(m.F), dx) * dx**d  # markers whose stencil covers the cell: one rounding each
                     sp_t = spread(w, m.F_t, dx) + gdr * spread(sup, np.abs(m.F), dx)
+                    ncalls[ib] += 1
                     if m.reset:
                         fm[...] = sp; fm_t[...] = sp_t + eps * (K + 2 * cnt) * absum
                         rec.count("reset_mode_calls")
                         if nonzero:
                             rec.count("reset_mode_calls_on_nonzero_field")
+                        # content OUTSIDE this body's stencil footprint (written by another body or by the caller) at its 2nd, 3rd, ...
+                        # call: the reset variant must wipe the whole field, not only where the body spreads
+                        if ncalls[ib] >= 2 and np.any(f0[:, ~(cnt[0] > 0.5)] != 0):
+                            rec.count("reset_mode_calls_2nd_or_later_with_content_outside_footprint")
                     else:
                         fm_t[...] = fm_t + sp_t + eps * (K + 2 * cnt) * (np.abs(fm) + absum); fm[...] = fm + sp
                         rec.count("accumulate_calls")
